@@ -17,8 +17,10 @@ try:
         if not m:
             continue
         prop, h, rest = m.groups()
-        rm = re.search(r"\b([A-Z]{3,}\.[A-Za-z0-9_.:-]+)", rest)
-        if not rm or "no rule" in rest:
+        # the rule is either the first word after the commit hash, or announced as "(rule NAME ..."; entries that only mention a related
+        # rule, or that say the defect was found by running code and has no rule, are not part of the corpus
+        rm = re.match(r"([A-Z]{3,}\.[A-Za-z0-9_.:-]+)", rest) or re.search(r"\(rules? ([A-Z]{3,}\.[A-Za-z0-9_.:-]+)", rest)
+        if not rm or "no rule" in rest or "related rule" in rest or "family; harness" in rest:
             continue
         rule = rm.group(1).rstrip(".,:;)")
         r = os.path.join(wt, "r")
